@@ -131,7 +131,8 @@ def storeList (nameOf : Bytes → Bytes) (dk : Bytes) (db : Db) (start : Bytes) 
 def delExpired (dk : Bytes) (page : List (Bytes × Bool)) (db : Db) : Db :=
   page.foldl (fun d p => if p.2 then dbDel (dk ++ p.1) d else d) db
 
-/-! ### generic path: `prefixFilterEntries` (after the `fix:` that advances `lastFileName`) -/
+/-! ### generic path: `prefixFilterEntries` (after the `fix:` commits: `lastFileName` = the last
+entry the filter loop examined) -/
 
 /-- the `for count < limit && len(notPrefixed) > 0` loop; `page` = notPrefixed, `need` = limit - count.
     Returns the entries emitted, the final lastFileName and database. -/
@@ -143,10 +144,12 @@ def prefixFilterLoop (nameOf : Bytes → Bytes) (dk pfx : Bytes) (limit : Nat) :
     let hit := (page.filter fun p => isPrefix pfx p.1).take need
     let db' := delExpired dk hit db
     if hit.length < need then
-      let page' := storeList nameOf dk db' last false limit []
-      let (r, last', db'') := prefixFilterLoop nameOf dk pfx limit fuel db' page' (need - hit.length) (lastName page')
+      -- the whole page was examined; refill after its last name
+      let last1 := lastName page
+      let page' := storeList nameOf dk db' last1 false limit []
+      let (r, last', db'') := prefixFilterLoop nameOf dk pfx limit fuel db' page' (need - hit.length) last1
       (hit ++ r, last', db'')
-    else (hit, last, db')
+    else (hit, lastName hit, db')
 
 /-- `doListDirectoryEntries` below the expiry filter: entries handed to the filer's callback -/
 def dirList (k : Kind) (dk : Bytes) (db : Db) (start : Bytes) (incl : Bool) (limit : Nat) (pfx : Bytes) :
